@@ -360,6 +360,48 @@ theorem C17_failed_message_routed {retries : Nat} (hr : 1 ≤ retries) (shards :
     obtain ⟨s, hs, rfl⟩ := List.mem_map.mp hsh
     exact (C17_routed_up hr _ _).mpr (h s hs)
 
+/-- the delete form of `C17_failed_message` -/
+theorem C17_failed_message_delete (col : Coll) (ids : List Nat) (e : Nat × Msg) (he : e ∈ (deletePoints col ids).failed) :
+    (e.2 = Msg.notFound ↔ ∀ sh ∈ col, sh.up = true) := by
+  rw [C17_failed_delete] at he
+  obtain ⟨i, _, rfl⟩ := List.mem_map.mp he
+  by_cases h : col.all (·.up) = true
+  · simp only [h, if_true, true_iff]; simpa using h
+  · simp only [h, Bool.false_eq_true, if_false]
+    constructor
+    · intro e; cases e
+    · intro hall; exact absurd (by simpa using hall) h
+
+/-- … and for delete -/
+theorem C17_failed_message_routed_delete {retries : Nat} (hr : 1 ≤ retries) (shards : List (List (Nat × Int) × Cache × List Ev))
+    (ids : List Nat) (e : Nat × Msg)
+    (he : e ∈ (deletePoints (shards.map fun s => ⟨s.1, routedUp retries s.2.1 s.2.2⟩) ids).failed) :
+    e.2 = Msg.notFound ↔ ∀ s ∈ shards, (routeFrom retries s.2.1 s.2.2).st.answeredOk = 1 := by
+  rw [C17_failed_message_delete _ ids e he]
+  constructor
+  · intro h s hs
+    have := h ⟨s.1, routedUp retries s.2.1 s.2.2⟩ (List.mem_map.mpr ⟨s, hs, rfl⟩)
+    exact (C17_routed_up hr _ _).mp this
+  · intro h sh hsh
+    obtain ⟨s, hs, rfl⟩ := List.mem_map.mp hsh
+    exact (C17_routed_up hr _ _).mpr (h s hs)
+
+/-- a search whose per-shard calls are routed returns results only if every shard's server was
+reached and answered -/
+theorem C17_search_routed {α} {retries : Nat} (hr : 1 ≤ retries) (sort : List α → List α) (heur : Nat → Nat → Nat) (maxLimit : Nat)
+    (shards : List (List α × Cache × List Ev)) (limit offset : Nat) (r : List α)
+    (h : searchPoints sort heur maxLimit (shards.map fun s => if routedUp retries s.2.1 s.2.2 then some s.1 else none) limit offset = some r) :
+    ∀ s ∈ shards, (routeFrom retries s.2.1 s.2.2).st.answeredOk = 1 := by
+  intro s hs
+  rw [← C17_routed_up hr]
+  cases hup : routedUp retries s.2.1 s.2.2
+  · exfalso
+    have hn : (none : Option (List α)) ∈ shards.map fun s => if routedUp retries s.2.1 s.2.2 then some s.1 else none :=
+      List.mem_map.mpr ⟨s, hs, by simp [hup]⟩
+    rw [C17_search_unavailable sort heur maxLimit _ limit offset hn] at h
+    cases h
+  · rfl
+
 -- non-vacuity: the server hangs on the first attempt, its connection dies during the back-off, the
 -- re-dial succeeds (retries = 2): one request lost, one answered
 example : routeFrom 2 .live [⟨false, false, .timeout⟩, ⟨true, false, .ok⟩, ⟨false, true, .ok⟩] =
